@@ -56,7 +56,12 @@ def pIterSpec : P IterSpec := fun ts => do
   let (thr, ts) ← pNat ts
   let (n, ts) ← pNat ts
   let (items, ts) ← pRep pVal n ts
-  pure (⟨id, kind, hr != 0, thr, items⟩, ts)
+  pure (⟨id, kind, hr, thr, items⟩, ts)
+
+def pLabel : P Label
+  | "_" :: ts => some (none, ts)
+  | t :: ts => t.toNat?.map (fun n => (some n, ts))
+  | [] => none
 
 mutual
 partial def pExpr : P Expr
@@ -143,14 +148,16 @@ partial def pStmt : P Stmt
     let (e, ts) ← pBlock ts
     pure (.ite c t e, ts)
   | "F" :: ts => do
+    let (l, ts) ← pLabel ts
     let (x, ts) ← pNat ts
     let (n, ts) ← pNat ts
     let (b, ts) ← pBlock ts
-    pure (.forS x n b, ts)
+    pure (.forS l x n b, ts)
   | "W" :: ts => do
+    let (l, ts) ← pLabel ts
     let (c, ts) ← pCond ts
     let (b, ts) ← pBlock ts
-    pure (.whileS c b, ts)
+    pure (.whileS l c b, ts)
   | "TR" :: ts => do
     let (b, ts) ← pBlock ts
     let (c, ts) ← (match ts with
@@ -166,20 +173,22 @@ partial def pStmt : P Stmt
       | _ => none)
     pure (.tryS b c f, ts)
   | "O" :: ts => do
+    let (l, ts) ← pLabel ts
     let (x, ts) ← pNat ts
     match ts with
     | "a" :: r => do
       let (src, r) ← pArgs r
       let (b, r) ← pBlock r
-      pure (.forOfArr x src b, r)
+      pure (.forOfArr l x src b, r)
     | "t" :: r => do
       let (s, r) ← pIterSpec r
       let (b, r) ← pBlock r
-      pure (.forOfIter x s b, r)
+      pure (.forOfIter l x s b, r)
     | _ => none
   | "RT" :: ts => do let (e, ts) ← pExpr ts; pure (.ret e, ts)
   | "TH" :: ts => do let (e, ts) ← pExpr ts; pure (.thr e, ts)
-  | "BK" :: ts => some (.brk, ts)
+  | "BK" :: ts => do let (l, ts) ← pLabel ts; pure (.brk l, ts)
+  | "CN" :: ts => do let (l, ts) ← pLabel ts; pure (.cont l, ts)
   | _ => none
 
 partial def pBlock : P (List Stmt) := fun ts => do
@@ -211,13 +220,22 @@ def fuelBudget : Nat := 20000
 
 def isMark (e : Event) : Bool := e.startsWith "!"
 
-/-- The trace, followed (if any defect-trigger marker fired) by a token `@i:…` = index of the first command that fired a marker and the markers, e.g. `@2:!A!B`. -/
+/-- Per command: (events, result, was `generator.returning` set during this command?).  goja sets `returning` when
+return(v) reaches a suspended body and clears it only when the generator completes. -/
+def runMarked (fuel : Nat) : GState → Bool → List Cmd → List (List Event × Result × Bool)
+  | _, _, [] => []
+  | g, returning, c :: cs =>
+    let returning := returning || (c.kind == .ret && g.tag == .susp)
+    let r := genCall fuel g c
+    (r.1, r.2.1, returning) :: runMarked fuel r.2.2 returning cs
+
+/-- The trace; if some command raised a Go-panic-origin exception while `returning` was set, followed by the token
+`@i` = index of the first such command (the unrepaired defect of known_findings.d/C09.json may show from there on). -/
 def traceOf (body : List Stmt) (cmds : List Cmd) : String :=
-  let tr := genRunFrom fuelBudget (GState.init body) cmds
-  let t := " ".intercalate (tr.map (fun (ev, r) => ",".intercalate (ev.filter (!isMark ·)) ++ ";" ++ showResult r))
-  let marks := ((tr.map (·.1)).flatten.filter isMark).eraseDups
-  let idx := (tr.takeWhile (fun (ev, _) => !ev.any isMark)).length
-  if marks.isEmpty then t else t ++ " @" ++ toString idx ++ ":" ++ String.join marks
+  let tr := runMarked fuelBudget (GState.init body) false cmds
+  let t := " ".intercalate (tr.map (fun (ev, r, _) => ",".intercalate (ev.filter (!isMark ·)) ++ ";" ++ showResult r))
+  let idx := (tr.takeWhile (fun (ev, _, ret) => !(ret && ev.any isMark))).length
+  if idx < tr.length then t ++ " @" ++ toString idx else t
 
 def splitOnTok (ts : List String) (sep : String) : List (List String) :=
   let r := ts.foldl (fun (acc : List (List String) × List String) t =>
@@ -247,20 +265,20 @@ def pInt : P Int
 def showRel (tf : Mech.TryFrame) : String := s!"{tf.iterLen} {tf.refLen} {tf.sp}"
 def showAbs (tf : Mech.TryFrame) : String := s!"{tf.callStackLen} {tf.iterLen} {tf.refLen} {tf.sp}"
 
-def mkFrame (c i r : Nat) (sp : Int) : Mech.TryFrame :=
+def mkFrame (c i r : Nat) (sp : Nat) : Mech.TryFrame :=
   { callStackLen := c, iterLen := i, refLen := r, sp := sp, stash := 0, catchPos := 0, finallyPos := -1 }
 
 def pFrameAbs : P Mech.TryFrame := fun ts => do
   let (c, ts) ← pNat ts
   let (i, ts) ← pNat ts
   let (r, ts) ← pNat ts
-  let (sp, ts) ← pInt ts
+  let (sp, ts) ← pNat ts
   pure (mkFrame c i r sp, ts)
 
 def pFrameRel : P Mech.TryFrame := fun ts => do
   let (i, ts) ← pNat ts
   let (r, ts) ← pNat ts
-  let (sp, ts) ← pInt ts
+  let (sp, ts) ← pNat ts
   pure (mkFrame 0 i r sp, ts)
 
 def mechLine (ts : List String) : String :=
